@@ -3,7 +3,10 @@ package h26xps
 import (
 	"bytes"
 	"encoding/base64"
+	"fmt"
+	"os"
 	"reflect"
+	"strconv"
 	"testing"
 
 	"pgregory.net/rapid"
@@ -346,5 +349,143 @@ func TestMinimalHelpers(t *testing.T) {
 	cap264, _ := base64.StdEncoding.DecodeString("aO+8sA==")
 	if _, err := ParseH264PPS(cap264); err != nil {
 		t.Fatalf("captured H.264 PPS: %v", err)
+	}
+}
+
+// TestGeneratorsStayInRange draws a large number of parameter sets with many
+// seeds straight from the generators (no rapid.Check budget involved) and
+// insists that each one is self-consistent and inside the standard's value
+// ranges: it encodes without error (every ue(v)/se(v) fits 32 bits, the RPS
+// range checks of the syntax walk hold), parses back strictly, re-encodes to
+// the same bytes, and derives the same values. H26XPS_DRAWS overrides the
+// number of draws per generator (default 70 000, i.e. 210 000 in all).
+func TestGeneratorsStayInRange(t *testing.T) {
+	draws := 70000
+	if v, err := strconv.Atoi(os.Getenv("H26XPS_DRAWS")); err == nil && v > 0 {
+		draws = v
+	}
+	const workers = 8
+	run := func(name string, one func(seed int) error) {
+		t.Run(name, func(t *testing.T) {
+			t.Parallel()
+			errs := make(chan error, workers)
+			for w := 0; w < workers; w++ {
+				go func(w int) {
+					var first error
+					for i := w; i < draws && first == nil; i += workers {
+						// spread the seeds: consecutive ints and a few far-apart bases
+						seed := i + (i%5)*1000003
+						func() {
+							defer func() {
+								if r := recover(); r != nil {
+									first = fmt.Errorf("seed %d: panic: %v", seed, r)
+								}
+							}()
+							if err := one(seed); err != nil {
+								first = fmt.Errorf("seed %d: %v", seed, err)
+							}
+						}()
+					}
+					errs <- first
+				}(w)
+			}
+			for w := 0; w < workers; w++ {
+				if err := <-errs; err != nil {
+					t.Error(err)
+				}
+			}
+		})
+	}
+	g264, g265, gvps := GenH264SPS(), GenH265SPS(), GenH265VPS()
+	run("h264", func(seed int) error {
+		s := g264.Example(seed)
+		b, err := s.TryEncode()
+		if err != nil {
+			return err
+		}
+		p, err := ParseH264SPS(b)
+		if err != nil {
+			return err
+		}
+		if p.Derived() != s.Derived() || !bytes.Equal(p.Encode(), b) {
+			return fmt.Errorf("round trip differs")
+		}
+		if s.OffsetForNonRefPic != p.OffsetForNonRefPic || s.OffsetForTopToBottomField != p.OffsetForTopToBottomField {
+			return fmt.Errorf("signed offsets differ")
+		}
+		return nil
+	})
+	run("h265sps", func(seed int) error {
+		s := g265.Example(seed)
+		b, err := s.TryEncode()
+		if err != nil {
+			return err
+		}
+		p, err := ParseH265SPS(b)
+		if err != nil {
+			return err
+		}
+		if p.Derived() != s.Derived() || !bytes.Equal(p.Encode(), b) {
+			return fmt.Errorf("round trip differs")
+		}
+		for i := range s.StRefPicSet {
+			if !reflect.DeepEqual(s.StRefPicSet[i].DeltaPocS0, p.StRefPicSet[i].DeltaPocS0) ||
+				!reflect.DeepEqual(s.StRefPicSet[i].DeltaPocS1, p.StRefPicSet[i].DeltaPocS1) || s.StRefPicSet[i].NumDeltaPocs() > 15 {
+				return fmt.Errorf("rps %d differs", i)
+			}
+		}
+		return nil
+	})
+	run("h265vps", func(seed int) error {
+		v := gvps.Example(seed)
+		b, err := v.TryEncode()
+		if err != nil {
+			return err
+		}
+		p, err := ParseH265VPS(b)
+		if err != nil {
+			return err
+		}
+		if !bytes.Equal(p.Encode(), b) || p.FrameRate() != v.FrameRate() {
+			return fmt.Errorf("round trip differs")
+		}
+		return nil
+	})
+}
+
+// The RPS boundary values stay reachable: abs_delta_rps_minus1 = 2^15 − 1,
+// DeltaPocS1 = 2^15 − 1, DeltaPocS0 = −2^15 encode and parse.
+func TestRPSBoundaryValues(t *testing.T) {
+	s := NewH265SPS(64, 64)
+	s.OrderingInfo[0].MaxDecPicBufferingMinus1 = 4
+	s.StRefPicSet = []H265STRPS{
+		{NumNegativePics: 1, NumPositivePics: 1, DeltaPocS0Minus1: []uint32{32767}, UsedByCurrPicS0Flag: []bool{true},
+			DeltaPocS1Minus1: []uint32{32766}, UsedByCurrPicS1Flag: []bool{true}}, // −32768, +32767
+		{NumPositivePics: 1, DeltaPocS1Minus1: []uint32{0}, UsedByCurrPicS1Flag: []bool{true}},
+		{InterRefPicSetPredictionFlag: true, DeltaRpsSign: true, AbsDeltaRpsMinus1: 32767,
+			UsedByCurrPicFlag: []bool{true, true}, UseDeltaFlag: []bool{true, true}}, // deltaRps −32768 -> S0 [−32767, −32768]
+	}
+	s.NumShortTermRefPicSets = 3
+	b, err := s.TryEncode()
+	if err != nil {
+		t.Fatal(err)
+	}
+	p, err := ParseH265SPS(b)
+	if err != nil {
+		t.Fatal(err)
+	}
+	if got := p.StRefPicSet[2].DeltaPocS0; !reflect.DeepEqual(got, []int{-32767, -32768}) {
+		t.Fatalf("derived %v", got)
+	}
+	// one step beyond is refused by the encoder
+	s.StRefPicSet[2].AbsDeltaRpsMinus1 = 32768
+	if _, err := s.TryEncode(); err == nil {
+		t.Fatal("abs_delta_rps_minus1 2^15 accepted")
+	}
+	s.StRefPicSet[2].AbsDeltaRpsMinus1 = 0
+	s.StRefPicSet[2].DeltaRpsSign = false
+	s.StRefPicSet[1].DeltaPocS1Minus1[0] = 32766 // +32767, +1 -> 32768
+	if _, err := s.TryEncode(); err == nil {
+		t.Fatal("DeltaPocS1 2^15 accepted")
 	}
 }
